@@ -392,6 +392,10 @@ class ObserverMonitor(Monitor):
                     if m.get('type') in ('request_vote', 'response_vote'):
                         raise core.Violation('C18 read-only node %s sent %s to %s (%r)' % (nid, m['type'], dst, ev),
                                              sig='observer-votes')
+            # it only follows: entries come into its log from a voter's message, never from its own tick or a local call
+            if pre.alive and ev[0] != 'D' and post.last is not None and pre.last is not None and post.last > pre.last:
+                raise core.Violation('C18 read-only node %s appended entries %d..%d to its own log on its own (like a leader) at %r' % (
+                    nid, pre.last + 1, post.last, ev), sig='observer-appends')
         if post.alive and post.voter and post.leader_flag and not (pre.leader_flag and pre.term == post.term):
             # became leader: must have been voted by a majority of VOTERS: votes are recorded by the safety monitor
             votes = post_w.ghost[0].votes
